@@ -226,13 +226,36 @@ def check_mp(ctx, cases, f, res, prop_for_est=False, known=None):
 # ------------------------------------------------------------------ C03
 def run_C03(ctx, rng, tier, res, known):
     q = tier == "quick"
+    from vlib import NCPU
     for f in ("f32", "f64"):
         cases = gens.gen_renderings(rng, f, 5 if q else 64)
         if q:
             rng.shuffle(cases)
             cases = cases[:6000]
         _mod().check_pf("C03", cases, ctx.cfgs, ctx.profiles, res, known, expect_bits=True)
-        # Rust's own formatter as the rendering source
+    # Rust's own formatter as the rendering source (implementation side only: a test, not the proof; any
+    # failure is a concrete replay): shortest / 9- resp. 17-digit / Display renderings parsed back through the
+    # shipped front-end. quick: strided sample; thorough: ALL finite non-negative f32 patterns (exhaustive).
+    from concurrent.futures import ThreadPoolExecutor
+    jobs = []
+    if q:
+        jobs += ["rt f32 %d 20000 %d" % (rng.randrange(0, 1 << 16), 104729), "rt f64 %d 20000 %d" % (rng.getrandbits(40), 450359962737049)]
+    else:
+        step = 1 << 22
+        jobs += ["rt f32 %d %d 1" % (s0, step) for s0 in range(0, 0x7f800000, step)]
+        jobs += ["rt f64 %d 200000 %d" % (rng.getrandbits(40), 45035996273705 + 2 * k) for k in range(64)]
+    n_rt = 0
+    for c in [x for x in ctx.cfgs if x in ("std", "std+compact")]:
+        with ThreadPoolExecutor(max_workers=NCPU) as ex:
+            outs = list(ex.map(lambda j: run_impl(c, "release", [j])[0], jobs))
+        for j, o in zip(jobs, outs):
+            t = j.split()
+            n_rt += int(t[3])
+            if not o.startswith("bad 0"):
+                res.viol.append(("round-trip", dict(case=j, cfg=c, impl=o, why="a Rust-formatted float did not parse back to itself (first failing pattern:string after the count)")))
+    res.evals += n_rt
+    res.extra["formatter_round_trips"] = n_rt
+    res.extra["exhaustive_f32_formatter_round_trip"] = (not q)
     return {}
 
 # ------------------------------------------------------------------ C04
@@ -1062,7 +1085,23 @@ def run_C17(ctx, rng, tier, res, known):
                 res.nontrivial.add(line)
     res.samples.append(dict(case=lines[0]))
     res.samples.append(dict(case=lines[-1]))
-    return {}
+    exhaustive = False
+    if not q:
+        # thorough: ALL 2^32 f32 bit patterns (exhaustive) and 2^32 stratified f64 patterns through the range-hash
+        # protocol: harness and driver fold (is_denormal, exponent, mantissa, to_bits∘from_bits, bh) into a hash
+        step = 1 << 22
+        hl = ["flh f32 %d %d 1" % (s0, step) for s0 in range(0, 1 << 32, step)]
+        hl += ["flh f64 %d %d %d" % (rng.getrandbits(63), step, rng.choice([1, (1 << 52) + 1, 4099, (1 << 32) + 1])) for _ in range(1024)]
+        M = run_model("std", "release", hl, heavy=True)
+        for c in [x for x in ctx.cfgs if x in ("std", "std+compact")]:
+            I = run_impl(c, "release", hl)
+            for line, a, b in zip(hl, I, M):
+                res.evals += int(line.split()[3])
+                if a != b:
+                    res.viol.append(("field-helper-range", dict(case=line, cfg=c, impl=a, model=b,
+                                                                why="range hash differs: bisect with smaller counts to the single pattern")))
+        exhaustive = True
+    return {"exhaustive_f32": exhaustive}
 
 # ------------------------------------------------------------------ C18
 def run_C18(ctx, rng, tier, res, known):
